@@ -339,6 +339,9 @@ func parseAux(aux []byte) ([]sam.Aux, error) {
 		switch j := jumps[t]; {
 		case j > 0:
 			j += 3
+			if i+j > len(aux) {
+				return nil, errors.New("bam: truncated aux data")
+			}
 			aa = append(aa, sam.Aux(aux[i:i+j:i+j]))
 			i += j
 		case j < 0:
@@ -351,6 +354,9 @@ func parseAux(aux []byte) ([]sam.Aux, error) {
 				aa = append(aa, sam.Aux(aux[i:i+j:i+j]))
 				i += j + 1
 			case 'B':
+				if i+8 > len(aux) {
+					return nil, errors.New("bam: truncated aux array header")
+				}
 				length := binary.LittleEndian.Uint32(aux[i+4 : i+8])
 				j = int(length)*jumps[aux[i+3]] + int(unsafe.Sizeof(length)) + 4
 				if j < 0 || i+j < 0 || i+j > len(aux) {
